@@ -133,3 +133,13 @@ func (d *Dynamo) Query(table, keyCond string, names map[string]string, value fun
 	}
 	return out, nil
 }
+
+// Peek returns the current item for (id, created) or nil.
+func (d *Dynamo) Peek(id string, created int64) *Item {
+	d.mu.Lock()
+	defer d.mu.Unlock()
+	if it, ok := d.now[key(id, created)]; ok {
+		return &it
+	}
+	return nil
+}
